@@ -23,7 +23,10 @@ CONSTANTS RethrowUnmatched,   \* TRUE: handle_exception rethrows when no clause 
 
 \* thrown by C++ functions: rt oor logic badcast ee user;  thrown by script as VALUES: int string, srt = runtime_error("x"),
 \* sbase / sder = the registered C++ pair BaseC / DerivedC (base_class<BaseC, DerivedC>), dyn = an instance of the script class MyErr
-Kinds == {"int", "string", "rt", "oor", "logic", "badcast", "ee", "user", "srt", "sbase", "sder", "dyn"}
+\* rtc / oorc / logicc / eec / userc: the same C++ exceptions thrown by a function that is reached through the CONVERSION route of
+\* dispatch (a double parameter called with an int): the route must hand the exception on exactly like the direct one
+Kinds == {"int", "string", "rt", "oor", "logic", "badcast", "ee", "user", "srt", "sbase", "sder", "dyn", "rtc", "oorc", "logicc", "eec", "userc"}
+Via(k) == CASE k = "rtc" -> "rt" [] k = "oorc" -> "oor" [] k = "logicc" -> "logic" [] k = "eec" -> "ee" [] k = "userc" -> "user" [] OTHER -> k
 ByValue == {"int", "string", "srt", "sbase", "sder", "dyn"}
 \* dynamic type and its registered supertypes (bootstrap.hpp registers exactly these base_class relations)
 Super == [k \in Kinds |->
@@ -36,7 +39,9 @@ Super == [k \in Kinds |->
      [] k = "user" -> {}
      [] k = "srt" -> {"runtime_error", "exception"}
      [] k = "sbase" -> {"BaseC"} [] k = "sder" -> {"DerivedC", "BaseC"}
-     [] k = "dyn" -> {"MyErr"}]
+     [] k = "dyn" -> {"MyErr"}
+     [] k = "rtc" -> {"runtime_error", "exception"} [] k = "oorc" -> {"out_of_range", "logic_error", "exception"}
+     [] k = "logicc" -> {"logic_error", "exception"} [] k = "eec" -> {"eval_error", "runtime_error", "exception"} [] k = "userc" -> {}]
 ClauseTypes == {"", "int", "string", "runtime_error", "out_of_range", "logic_error", "exception", "eval_error", "BaseC", "DerivedC", "MyErr"}
 
 \* statements: mark n | throw kind | ret | try
@@ -79,8 +84,8 @@ Ref(prog) == RefSeq(prog, 1, [out |-> <<>>, esc |-> "none"])
 -----------------------------------------------------------------------------
 (* transcription of Try_AST_Node *)
 \* which C++ catch arm takes the exception and which static type the boxed reference gets
-StaticType(kind) == CASE kind = "ee" -> "eval_error" [] kind = "rt" -> "runtime_error" [] kind = "oor" -> "out_of_range"
-                      [] kind \in {"logic", "badcast"} -> "exception" [] kind = "int" -> "int" [] kind = "string" -> "string"
+StaticType(kind) == CASE kind \in {"ee", "eec"} -> "eval_error" [] kind \in {"rt", "rtc"} -> "runtime_error" [] kind \in {"oor", "oorc"} -> "out_of_range"
+                      [] kind \in {"logic", "badcast", "logicc"} -> "exception" [] kind = "int" -> "int" [] kind = "string" -> "string"
                       [] kind = "srt" -> "runtime_error" [] kind = "sbase" -> "BaseC" [] kind = "sder" -> "DerivedC" [] kind = "dyn" -> "MyErr"
                       [] OTHER -> "?"                                  \* catch (...) arm: not boxed at all
 \* registered base_class pairs (bidirectional dynamic conversions)
@@ -151,7 +156,7 @@ RECURSIVE ThrowsUser(_, _)
 ThrowsUser(stmts, i) ==
   IF i > Len(stmts) THEN FALSE
   ELSE LET st == stmts[i] IN
-       \/ (st.k = "throw" /\ st.x = "user")
+       \/ (st.k = "throw" /\ st.x \in {"user", "userc"})
        \/ (st.k = "try" /\ (ThrowsUser(st.body, 1) \/ ThrowsUser(st.fin, 1) \/ \E j \in 1..Len(st.cl) : ThrowsUser(st.cl[j].h, 1)))
        \/ ThrowsUser(stmts, i + 1)
 \* Known finding (DESIGN.md section 6 row 27): a C++ exception that is not derived from std::exception cannot be boxed,
